@@ -1,6 +1,6 @@
 """Source of MANIFEST.json (tools/gen_manifest.py). One entry per property."""
 
-KANI = "Kani 0.68 function contracts / loop-free full-domain harnesses over CBMC 6.11 on the real crate (contracts woven into a scratch copy of /repo's working tree; nothing but inserted lines differs)"
+KANI = "Kani 0.68 function contracts / loop-free full-domain harnesses over CBMC 6.11 on the real crate (contracts woven into a scratch copy of /repo's working tree; nothing but inserted lines differs); for C24, C31 (export gate), C33, C36 (merge) and the C16/C22 arithmetic leaves: the same harness style on functions and statement runs extracted mechanically from the real files on every run (Route S, DESIGN.md 1.3)"
 
 ENGINES = [
     {"name": "kani-contracts", "path": "/verif/tools/run_check.py",
@@ -8,7 +8,7 @@ ENGINES = [
      "kind_free_text": KANI},
     {"name": "verus+kani", "path": "/verif/tools/extract.py",
      "serves_properties": ["C02", "C16"],
-     "kind_free_text": "Verus 0.2026.09.13 (Z3) on items mechanically extracted from the real files on every run (rewrite rules X1-X8 in DESIGN.md 1.2, each counted in the evidence), paired with Kani harnesses on the real crate for replay"},
+     "kind_free_text": "Verus 0.2026.09.13 (Z3) on items mechanically extracted from the real files on every run (rewrite rules X1-X10 in DESIGN.md 1.2, each counted in the evidence), paired with Kani harnesses on the real crate for replay"},
 ]
 
 NOTES = ("Contract-based deductive verification only. exit 0 = every obligation of the tier discharged "
